@@ -360,12 +360,18 @@ def damage(rnd, text):
     if k < 0.55:
         return {"how": "flip", "pos": [rnd.randrange(len(b)) for _ in range(rnd.randint(1, 4))],
                 "val": [rnd.choice([0, 34, 40, 41, 44, 47, 59, 92, 123, 125, 10, 255, rnd.randrange(256)]) for _ in range(4)]}
-    if k < 0.65:
+    if k < 0.62:
         i = rnd.randrange(len(b))
-        return {"how": "delete", "at": i, "n": rnd.randint(1, 30)}
-    if k < 0.75:
+        return {"how": "delete", "at": i, "n": rnd.choice([1, 1, 2, rnd.randint(1, 30)])}
+    if k < 0.68:
         i = rnd.randrange(len(b))
         return {"how": "dup", "at": i, "n": rnd.randint(1, 30)}
+    if k < 0.8:
+        # parser-relevant fragments spliced in at a random position (inside or outside strings)
+        frags = ['\\x4"', '\\x', '\\xg"', '\\', '"', '\\"', '/*', '*/', '//', '(', ')', '{', '}', ',', ';', '\n', '\\x4', '\x00',
+                 '\\x4"\n', '"\\', '\\n"', '""', '( (', '} }', ',,', '/', '/*/', '\\x']
+        return {"how": "splice", "at": [rnd.randrange(len(b) + 1) for _ in range(rnd.choice([1, 1, 2]))],
+                "frag": [rnd.choice(frags) for _ in range(2)]}
     if k < 0.85:
         return {"how": "random", "bytes": "".join(chr(rnd.randrange(256)) for _ in range(rnd.randint(1, 200)))}
     if k < 0.9:
@@ -390,6 +396,10 @@ def apply_damage(d, text):
         return bytes(b)
     if h == "dup":
         b[d["at"]:d["at"]] = b[d["at"]:d["at"] + d["n"]]
+        return bytes(b)
+    if h == "splice":
+        for at, fr in sorted(zip(d["at"], d["frag"]), reverse=True):
+            b[at:at] = fr.encode("latin1")
         return bytes(b)
     if h == "random":
         return d["bytes"].encode("latin1")
